@@ -93,6 +93,20 @@ class Run:
             e.update(env)
         p = subprocess.run([binary or VH] + [str(a) for a in args], stdout=subprocess.PIPE, stderr=subprocess.PIPE,
                            text=True, timeout=timeout, env=e)
+        if p.returncode == 3:
+            # a panic escaped every catch of the harness: a panic raised inside the code under test is a finding,
+            # one raised by the harness's own code (a broken assumption about its input) is a tool error
+            try:
+                fp = json.loads(p.stdout.strip().splitlines()[-1])
+            except Exception:
+                fp = {"at": "", "fatal_panic": p.stdout[-500:]}
+            if fp.get("at") and "/harness/src/" not in fp["at"] and not fp["at"].startswith("src/"):
+                self.violation("harness-stopped-by-panic:%s" % fp["at"],
+                               "the code under test panicked at %s (%s) outside any conversion the harness guards; `%s` could not complete" % (
+                                   fp["at"], fp.get("fatal_panic", "")[:300], " ".join(map(str, args))[:200]),
+                               {"module": "harness", "args": [str(a) for a in args], "panic": fp})
+                return {"cases": 0, "prop_mismatch": 0, "model_drift": 0, "prop": [], "model": [], "samples": [], "runs": 0, "events": 0}
+            raise ToolError("harness %s stopped by a panic of its own at %s: %s" % (" ".join(map(str, args)), fp.get("at"), fp.get("fatal_panic", "")[:500]))
         if p.returncode != 0:
             raise ToolError("harness %s failed (%d): %s" % (" ".join(map(str, args)), p.returncode, p.stderr[-2000:]))
         last = p.stdout.strip().splitlines()[-1]
